@@ -4,7 +4,17 @@
 use std::io::{self, BufRead, Write};
 use std::panic;
 
+thread_local! {
+    pub static LAST_PANIC_LOC: std::cell::RefCell<String> = std::cell::RefCell::new(String::new());
+}
+
+pub fn last_panic_loc() -> String {
+    LAST_PANIC_LOC.with(|c| c.borrow().clone())
+}
+
 mod ops;
+mod opts;
+mod tree;
 
 pub fn unhex(s: &str) -> Vec<u8> {
     if s == "-" {
@@ -41,7 +51,10 @@ pub fn hex(b: &[u8]) -> String {
 
 fn main() {
     // silence the default panic message; we report panics on stdout
-    panic::set_hook(Box::new(|_| {}));
+    panic::set_hook(Box::new(|info| {
+        let loc = info.location().map(|l| format!("{}:{}", l.file(), l.line())).unwrap_or_default();
+        LAST_PANIC_LOC.with(|c| *c.borrow_mut() = loc);
+    }));
     let args: Vec<String> = std::env::args().collect();
     if args.len() > 1 && args[1] == "--version" {
         println!("vh {}", comrak::version());
@@ -76,7 +89,7 @@ fn main() {
                 } else {
                     "?".to_string()
                 };
-                writeln!(out, "panic {}", hex(msg.as_bytes())).unwrap()
+                writeln!(out, "panic {} {}", hex(msg.as_bytes()), last_panic_loc()).unwrap()
             }
         }
         if announce {
